@@ -419,6 +419,8 @@ class AffTok(Ext):
         if attr in ("scale", "rotate", "skewx", "skewy", "matrix", "skew"):
             return PyCallable(lambda i, a, k: AffTok((f"{attr}({','.join(map(repr, a))})",) + self.app))
         if attr == "round":
+            if getattr(it, "afftok_round_distinct", False):
+                return PyCallable(lambda i, a, k: AffTok((f"round{a[0]!r}[" + "*".join(self.app) + "]",)))
             return PyCallable(lambda i, a, k: self)
         if attr == "is_degenerate":
             return PyCallable(lambda i, a, k: False)
